@@ -10,5 +10,7 @@ CONSTANTS
   DevFirstWins = FALSE
   DevFastNoSecond = FALSE
   DevNoReseek = FALSE
+  AllowMoved = FALSE
+  InPlaceCommit = FALSE
 INVARIANTS ContentOK StructurePreservesContent Agree NoPanic ReadsCover InRangeResult
 CHECK_DEADLOCK FALSE
